@@ -98,7 +98,21 @@ def c06(tier):
     return rep
 
 
+def c03(tier):
+    from . import props_gen
+    rep = Report('C03', tier,
+                 'Generator invariants over gen.cpp, decided per construct (factory call sites, allocator calls, '
+                 'label definitions, routine finishing) by dominance on the CFG, single-definition origin tracking and '
+                 'a provenance lattice for register operands; VM frame roles from the handler effect summaries. Each '
+                 'lemma holds for every program the generator can emit, so no emitted program is inspected.',
+                 assumptions=['the syntax tree handed to gen() is error free (C04.d)',
+                              'handlers meet their ISA contract (C01.a)'], trusted=TRUSTED)
+    props_gen.c03(rep, tier)
+    return rep
+
+
 CHECKS = {
+    'C03': c03,
     'C19': c19, 'C20': c20, 'C17': c17, 'C05': c05, 'C06': c06,
 }
 
